@@ -70,8 +70,8 @@ Definition a_then (r : ares) (k : astate -> ares) : ares :=
 (* decimal digits of v, no leading zeros *)
 Definition dec_digits (v : N) : bytes :=
   let h := (v / 100)%N in let d := ((v / 10) mod 10)%N in let u := (v mod 10)%N in
-  (if (0 <? h)%N then [h + 48] else []) ++
-  (if (0 <? h)%N || (0 <? d)%N then [d + 48] else []) ++ [u + 48]%N.
+  (if (0 <? h)%N then [(h + 48)%N] else []) ++
+  (if (0 <? h)%N || (0 <? d)%N then [(d + 48)%N] else []) ++ [(u + 48)%N].
 
 Fixpoint a_pushes (cap : option nat) (a : astate) (l : bytes) : ares :=
   match l with
